@@ -416,6 +416,9 @@ impl<'a> Ctx<'a> {
                     if lhs > rhs {
                         shard.violation(format!("contribute:accepted-amounts-not-in-pool-ratio:{kind}"), self.detail(label, tx, case(i, Some(j))));
                     }
+                    if lhs > (&accepted[j] + &units[j]) * &r[i] {
+                        shard.count("ratio_pairs_within_tolerance_only_thanks_to_the_36_decimal_precision_allowance");
+                    }
                     if lhs != &accepted[j] * &r[i] {
                         tight = false;
                     }
@@ -453,6 +456,15 @@ impl<'a> Ctx<'a> {
             }
         }
         shard.count(if lost { "roundtrips_returning_less" } else { "roundtrips_returning_exactly" });
+        if pre.r.iter().any(|x| x.bits() > 150) {
+            shard.count("roundtrips_with_a_reserve_above_2^150_subunits");
+        }
+        if pre.s.is_positive() && pre.r.iter().any(|x| x.is_positive() && (x.bits() as i64 - pre.s.bits() as i64).abs() > 60) {
+            shard.count("roundtrips_with_unit_supply_and_reserve_60_bits_apart");
+        }
+        if accepted.iter().any(|a| a.is_positive() && a.bits() <= 8) {
+            shard.count("roundtrips_with_dust_contribution");
+        }
         let divs: Vec<u8> = self.pool.res.iter().map(|x| x.div).collect();
         shard.nontrivial(&("roundtrip", flavour.to_string(), self.pool.kind, divs, lost, pre.s.is_zero(), pre.s.bits(), accepted.iter().map(|a| a.bits()).collect::<Vec<_>>()));
     }
